@@ -55,3 +55,34 @@ package bindrequest_info
 //@   ensures (result == nil) <==> (!(objKey(pod.Namespace, pod.Name) in brm) || brFailed(brm[objKey(pod.Namespace, pod.Name)].BindRequest))
 //@   ensures result != nil ==> result == brm[objKey(pod.Namespace, pod.Name)]
 //@ end
+
+// C13: "... leaves the scheduler's view of ... resource claims ... exactly as it was at that point": the
+// snapshots kept in the undo log (Statement.Evict / Pipeline) are taken with Clone, and the DRA plugin's
+// handlers write the live entries in place, so the copy must share neither the map nor any entry object
+// with the original, while holding the same keys and claim names.
+//@ define rciEntriesOK(rci ResourceClaimInfo) bool = forall k in rci :: rci[k] != nil
+// c is a deep copy of the map m as it was in the pre-state: nil iff m is nil, same key set, every entry a
+// new object with the same claim name
+//@ define rciSameKeys(c ResourceClaimInfo, m ResourceClaimInfo) bool = forall k string :: (k in c) == old(k in m)
+//@ define rciFreshEntries(c ResourceClaimInfo, m ResourceClaimInfo) bool = forall k in c :: c[k] != nil && fresh(c[k]) && c[k].Name == old(m[k].Name)
+
+//@ func (ResourceClaimInfo).Clone
+//@   props C13
+//@   assume rciEntriesOK(rci)
+//@   note assume rciEntriesOK: data invariant of the type - entries are only ever stored as `&ResourceClaimAllocation{...}` (here and in dynamicresources.allocateResourceClaim). It is an `assume`, not a `requires`, because (*pod_info.PodInfo).Clone and its many callers (owned by other contract files) would all have to carry it
+//@   assume forall k in rci :: allocated(rci[k])
+//@   note assume allocated: heap closure (a map cell of the pre-state cannot hold an object that is only allocated later); the engine knows it for a loaded value only relative to the allocation frontier at the load, not relative to the entry state
+//@   loop 1
+//@     invariant newrci != nil && fresh(newrci) && newrci != rci
+//@     invariant forall k string :: (k in newrci) == (k in visited)
+//@     invariant forall k in visited :: k in rci
+//@     invariant forall k in visited :: newrci[k] != nil
+//@     invariant forall k in visited :: fresh(newrci[k])
+//@     invariant forall k in visited :: newrci[k].Name == old(rci[k].Name)
+//@     invariant forall k in visited :: newrci[k].Allocation != nil ==> fresh(newrci[k].Allocation)
+//@   ensures [nilIffNil] (result == nil) == (rci == nil)
+//@   ensures [newMap] result != nil ==> fresh(result)
+//@   ensures [sameKeys] rciSameKeys(result, rci)
+//@   ensures [newEntries] rciFreshEntries(result, rci)
+//@   ensures [newAllocations] forall k in result :: result[k].Allocation != nil ==> fresh(result[k].Allocation)
+//@ end
